@@ -45,6 +45,8 @@ let op1 r o xa w =
         put_f (unres (integrate fops !o a b)); put_f (unres (integrate fops !o b c)); put_f (unres (integrate fops !o a c))
     | "B" -> let a = num r in let b = num r in
         put_f (unres (integrate fops !o a b)); put_f (unres (local_minimum fops !o a b)); put_f (unres (local_maximum fops !o a b))
+    | "C" -> let x = num r in put_f (unres (call1 fops !o x)); put_f (f x)
+    | "O" -> List.iter put_f (domain1 !o)
     | "U" -> let a = num r in let x = num r in let d = num r in
         put_f (unres (integrate fops !o a (x +. d))); put_f (unres (integrate fops !o a (x -. d)));
         put_f (f x); put_f (unres (derivative fops !o x (z_of_int 2)))
@@ -59,6 +61,8 @@ let op2 r o xa ya w =
     | "P" -> let c = num r in o := set_prefactor2 !o c
     | "X" -> let c = num r in o := multiply2 fops !o c
     | "I" -> let x = num r in let y = num r in put_f (unres (interpolate2 fops !o x y))
+    | "C" -> let x = num r in let y = num r in put_f (unres (call2 fops !o x y)); put_f (unres (interpolate2 fops !o x y))
+    | "O" -> List.iter (List.iter put_f) (domain2 !o)
     | "g" -> put_f (unres (global_minimum2 fops !o))
     | "G" -> put_f (unres (global_maximum2 fops !o))
     | "Z" -> let n = integer r in
